@@ -489,6 +489,7 @@ func newFuncInfo(fn *ssa.Function) *funcInfo {
 					}
 				}
 			}
+			fi.leafCallRel(ins) // a call of a leaf accessor relates the epochs like a store (ext_x8.go)
 		}
 	}
 	fi.resultObjectLens()
@@ -1460,6 +1461,12 @@ func (c *Ctx) loopClasses(fns []*ssa.Function) {
 func loopShape(c *Ctx, h *ssa.BasicBlock) string {
 	for _, b := range []*ssa.BasicBlock{h} {
 		if ifi, ok := b.Instrs[len(b.Instrs)-1].(*ssa.If); ok {
+			if _, isCmp := ifi.Cond.(*ssa.BinOp); !isCmp {
+				// a "slice not empty" test made by a small accessor (`!out.full()`): the test it stands for (ext_x8.go)
+				if _, ok := roomTest(ifi.Cond, 0); ok {
+					return "`(len(…)>0)`"
+				}
+			}
 			return "`" + c.valShape(ifi.Cond) + "`"
 		}
 	}
